@@ -16,7 +16,8 @@ RULE = ('m-of-n with n in 2..4 (thorough ..5), every m, witness type legacy / p2
         'file. One wallet funds the common address (offline provider) and creates a spend; then a drawn sequence of '
         '1..n+1 hand-offs (signer, medium in {object, dict, raw hex}), repeats allowed, with a broadcast attempt '
         'after each. [per-wallet anti_fee_sniping, explicit locktimes, imported == exported transaction, bulk get_keys(n) + new_key issuance on every cosigner wallet] Non-trivial = m<n with >=2 hand-offs, or two different media, or a signer order different from '
-        'key order; distinct by (m, n, type, permutations, ceremony). [post_edit: the completed spend is changed and re-signed by one cosigner, then sent; verified flag and broadcast judged by the interpreter; post_resign: the other cosigners replace their signatures on the changed spend, m distinct signers of the new version must verify; many: 11/12/15 cosigners, sorted and unsorted keys, addresses before and after a reopen against the reference script] [special_r: creator signature made with a nonce whose r starts with 30/02/03/04/00]')
+        'key order; distinct by (m, n, type, permutations, ceremony). [post_edit: the completed spend is changed and re-signed by one cosigner, then sent; verified flag and broadcast judged by the interpreter; post_resign: the other cosigners replace their signatures on the changed spend, m distinct signers of the new version must verify; many: 11/12/15 cosigners, sorted and unsorted keys, addresses before and after a reopen against the reference script] [special_r: creator signature made with a nonce whose r starts with 30/02/03/04/00]'
+        " [explicit [change, index] requests on every cosigner wallet; ext_keys: the creator signs with other cosigners' master keys in one call]")
 ASSUMPTIONS = ['SQLite only; offline provider of bitcoinlib_test', 'all cosigner wallets have run utxos_update() before the ceremony', 'default sort_keys=True (BIP67 ordering)',
                'BIP45 (legacy) paths carry a cosigner index: all wallets are asked for the same cosigner index']
 SHARDS = {'quick': 16, 'thorough': 16}
